@@ -423,15 +423,24 @@ func (r *Runtime) regexpproto_exec(call FunctionCall) Value {
 }
 
 func (r *Runtime) regexpproto_test(call FunctionCall) Value {
-	if this, ok := r.toObject(call.This).self.(*regexpObject); ok {
+	thisObj := r.toObject(call.This)
+	if this := r.checkStdRegexp(thisObj); this != nil {
 		if this.test(call.Argument(0).toString()) {
 			return valueTrue
 		} else {
 			return valueFalse
 		}
-	} else {
-		panic(r.NewTypeError("Method RegExp.prototype.test called on incompatible receiver %s", r.objectproto_toString(FunctionCall{This: call.This})))
 	}
+	if _, ok := thisObj.self.(*regexpObject); !ok {
+		if _, ok := thisObj.self.getStr("exec", nil).(*Object); !ok {
+			panic(r.NewTypeError("Method RegExp.prototype.test called on incompatible receiver %s", r.objectproto_toString(FunctionCall{This: call.This})))
+		}
+	}
+	// RegExpExec: goes through the (possibly user-defined) "exec" property
+	if regExpExec(thisObj, call.Argument(0).toString()) != _null {
+		return valueTrue
+	}
+	return valueFalse
 }
 
 func (r *Runtime) regexpproto_toString(call FunctionCall) Value {
